@@ -209,8 +209,69 @@ theorem initSlots_eq_vpLoop (names : List String) (args : List V) (k i : Nat) (k
         rw [e2] at this
         exact this
 
-/-- VariablePayload.__init__ in terms of the single pass (needs one name per slot) -/
-theorem vpInit_eq (d : PDef V) (args : List V) (kw : KW V) (hlen : d.names.length = totalSlots d.fmts) :
+theorem initSlots_index (names : List String) (args : List V) (k : Nat) (st st' : InitSt V)
+    (h : initSlots names args k st = .ok st') : st'.index = st.index + k := by
+  induction k generalizing st with
+  | zero => simp only [initSlots, Except.ok.injEq] at h; subst h; rfl
+  | succ k ih =>
+    simp only [initSlots] at h
+    cases hs : initSlot names args st with
+    | error e => simp [hs] at h
+    | ok s1 =>
+      simp only [hs] at h
+      have h1 : s1.index = st.index + 1 := by
+        unfold initSlot at hs
+        split at hs
+        · split at hs
+          · cases hs
+          · cases hs; rfl
+        · split at hs
+          · cases hs
+          · split at hs
+            · cases hs
+            · cases hs; rfl
+      rw [ih s1 h, h1]; omega
+
+/-- the forwarding loop over the first names is the main loop's inner step -/
+theorem superFwd_eq_initSlots (names : List String) (args : List V) (k i : Nat) (kw : KW V) (acc : Attrs V)
+    (h : i + k ≤ names.length) :
+    superFwd args ((names.drop i).take k) { index := i, kw := kw, attrs := acc } =
+      initSlots names args k { index := i, kw := kw, attrs := acc } := by
+  induction k generalizing i kw acc with
+  | zero => simp [superFwd, initSlots]
+  | succ k ih =>
+    have hi : i < names.length := by omega
+    rw [List.drop_eq_getElem_cons hi, List.take_succ_cons]
+    simp only [superFwd, initSlots, superSlot, initSlot, List.getElem?_eq_getElem hi]
+    by_cases ha : i < args.length
+    · simp only [ha, dite_true]
+      exact ih (i + 1) kw _ (by omega)
+    · simp only [ha, dite_false]
+      cases hp : popKw kw names[i] with
+      | none => rfl
+      | some x =>
+        obtain ⟨v, kw'⟩ := x
+        exact ih (i + 1) kw' _ (by omega)
+
+theorem totalSlots_append (a b : List Fmt) : totalSlots (a ++ b) = totalSlots a + totalSlots b := by
+  induction a with
+  | nil => simp [totalSlots]
+  | cons f fs ih => simp [totalSlots, ih]; omega
+
+theorem totalSlots_single (fs : List Fmt) (h : ∀ f ∈ fs, f.slots = 1) : totalSlots fs = fs.length := by
+  induction fs with
+  | nil => rfl
+  | cons f fs ih =>
+    simp only [totalSlots, List.length_cons, h f (List.mem_cons_self ..),
+      ih (fun g hg => h g (List.mem_cons_of_mem _ hg))]
+    omega
+
+/-- VariablePayload.__init__ in terms of the single pass (needs one name per slot; an old-style superclass takes the
+    first names, whose formats occupy one slot each) -/
+theorem vpInit_eq (d : PDef V) (args : List V) (kw : KW V) (hlen : d.names.length = totalSlots d.fmts)
+    (hsup : d.superArgs = d.names.take d.superArgs.length)
+    (hsl : d.superArgs.length ≤ d.fmts.length)
+    (hsingle : ∀ f ∈ d.fmts.take d.superArgs.length, f.slots = 1) :
     vpInit d args kw =
       match vpLoop d.names args kw [] with
       | .error e => .error e
@@ -218,12 +279,40 @@ theorem vpInit_eq (d : PDef V) (args : List V) (kw : KW V) (hlen : d.names.lengt
         if args.length > d.names.length then .error .keyError
         else if !kw'.isEmpty then .error .keyError
         else .ok acc' := by
+  have hsplit : totalSlots d.fmts = d.superArgs.length + totalSlots (d.fmts.drop d.superArgs.length) := by
+    conv => lhs; rw [← List.take_append_drop d.superArgs.length d.fmts]
+    rw [totalSlots_append, totalSlots_single _ hsingle, List.length_take]
+    omega
+  have hn : d.superArgs.length ≤ d.names.length := by omega
+  have hfwd : superFwd args d.superArgs { index := 0, kw := kw, attrs := [] } =
+      initSlots d.names args d.superArgs.length { index := 0, kw := kw, attrs := [] } := by
+    have := superFwd_eq_initSlots d.names args d.superArgs.length 0 kw [] (by omega)
+    rw [List.drop_zero, ← hsup] at this
+    exact this
+  have hall := initSlots_eq_vpLoop d.names args (totalSlots d.fmts) 0 kw [] (by omega)
+  rw [hsplit, initSlots_add] at hall
   unfold vpInit
-  rw [initFmts_flat, initSlots_eq_vpLoop d.names args (totalSlots d.fmts) 0 kw [] (by omega)]
-  simp only [List.drop_zero]
-  cases vpLoop d.names args kw [] with
-  | error e => rfl
-  | ok r => obtain ⟨kw', acc'⟩ := r; rfl
+  rw [hfwd]
+  cases h0 : initSlots d.names args d.superArgs.length { index := 0, kw := kw, attrs := [] } with
+  | error e =>
+    rw [h0] at hall
+    simp only [List.drop_zero] at hall
+    cases hv : vpLoop d.names args kw [] with
+    | error e' =>
+      rw [hv] at hall
+      injection hall with he
+      subst he
+      rfl
+    | ok r => obtain ⟨a, b⟩ := r; rw [hv] at hall; cases hall
+  | ok st0 =>
+    have hidx := initSlots_index _ _ _ _ _ h0
+    simp only [Nat.zero_add] at hidx
+    rw [h0] at hall
+    simp only [List.drop_zero] at hall
+    simp only [hidx, initFmts_flat, hall]
+    cases vpLoop d.names args kw [] with
+    | error e => rfl
+    | ok r => obtain ⟨kw', acc'⟩ := r; rfl
 
 /-- positional phase -/
 theorem vpLoop_positional (ns : List String) (as : List V) (kw : KW V) (acc : Attrs V)
@@ -402,6 +491,15 @@ theorem runSetters_zip (pre : KW V) (ns : List String) (vs : List V) (acc : Attr
 structure PDef.WF (d : PDef V) : Prop where
   nodup : d.names.Nodup
   slots : d.names.length = totalSlots d.fmts
+  /-- an old-style superclass `__init__` takes the first field names, in order, ... -/
+  super_prefix : d.superArgs = d.names.take d.superArgs.length
+  super_len : d.superArgs.length ≤ d.fmts.length
+  /-- ... and their formats occupy one slot each (no "bits" among them) -/
+  super_single : ∀ f ∈ d.fmts.take d.superArgs.length, f.slots = 1
+
+theorem PDef.WF.of_no_super (d : PDef V) (h1 : d.names.Nodup) (h2 : d.names.length = totalSlots d.fmts)
+    (h3 : d.superArgs = []) : d.WF :=
+  ⟨h1, h2, by simp [h3], by simp [h3], by simp [h3]⟩
 
 /-- defaults: the spliced text denotes the same value, and no non-default parameter follows a default one
     (Python rejects such an `__init__` already in the interpreted class) -/
@@ -455,10 +553,10 @@ theorem runInit_generated (d : PDef V) (args : List V) (kw : KW V) (hnd : d.name
       simp only [hx', Bool.not_false, Bool.and_self, if_true]
 
 
-theorem vpInit_full (d : PDef V) (vals : List V) (extra : KW V) (hlen : d.names.length = totalSlots d.fmts)
+theorem vpInit_full (d : PDef V) (vals : List V) (extra : KW V) (hwf : d.WF)
     (hv : vals.length = d.names.length) :
     vpInit d vals extra = if !extra.isEmpty then .error .keyError else .ok (d.names.zip vals).reverse := by
-  rw [vpInit_eq d vals extra hlen, vpLoop_positional d.names vals extra [] (by omega)]
+  rw [vpInit_eq d vals extra hwf.slots hwf.super_prefix hwf.super_len hwf.super_single, vpLoop_positional d.names vals extra [] (by omega)]
   simp only [hv, List.drop_length, List.take_length, vpLoop, List.append_nil, Nat.lt_irrefl, gt_iff_lt, if_false]
 
 /-- the keywords that remain after the keyword phase are empty exactly when CPython accepts the call -/
@@ -504,7 +602,7 @@ theorem init_core (d : PDef V) (args : List V) (kw : KW V) (hwf : d.WF) (hkw : (
   | none =>
     simp only
     have hfun : alookup ([] : KW V) = fun _ => none := by funext n; rfl
-    rw [hfun, vpInit_eq d args kw hwf.slots]
+    rw [hfun, vpInit_eq d args kw hwf.slots hwf.super_prefix hwf.super_len hwf.super_single]
     by_cases hlen : args.length > d.names.length
     · obtain ⟨e, he⟩ := bindParams_surplus (fun _ => (none : Option V)) kw d.names args hlen
       obtain ⟨acc', ha⟩ := vpLoop_surplus d.names args kw [] hlen
@@ -552,7 +650,7 @@ theorem init_core (d : PDef V) (args : List V) (kw : KW V) (hwf : d.WF) (hkw : (
       have hv := bindParams_length _ _ _ _ _ hb
       by_cases hx : (kw.filter (fun e => !d.names.contains e.1)).isEmpty = true
       · simp only [hx, Bool.not_true, Bool.and_false, Bool.false_eq_true, if_false]
-        rw [vpInit_full d vals _ hwf.slots hv]
+        rw [vpInit_full d vals _ hwf hv]
         simp only [hx, Bool.not_true, Bool.false_eq_true, if_false]
       · have hx' : (kw.filter (fun e => !d.names.contains e.1)).isEmpty = false := by
           cases h : (kw.filter (fun e => !d.names.contains e.1)).isEmpty
@@ -563,7 +661,7 @@ theorem init_core (d : PDef V) (args : List V) (kw : KW V) (hwf : d.WF) (hkw : (
         | false => simp [Except.toOption]
         | true =>
           simp only [Bool.not_true, Bool.false_eq_true, if_false]
-          rw [vpInit_full d vals _ hwf.slots hv]
+          rw [vpInit_full d vals _ hwf hv]
           simp only [hx', Bool.not_false, if_true, Except.toOption]
 
 
@@ -655,6 +753,21 @@ theorem vpCompile_ok (splice : V → Option V) (d : PDef V) (hwf : d.WF) (hd : d
   have hci := compileInit_ok splice d hd
   simp only [vpCompile, hci, compilePack, hes]
 
+/-- proof of `compiled_pack_eq` (stated in Props.lean) -/
+theorem compiled_pack_eq_lemma (splice : V → Option V) (d : PDef V) (attrs : Attrs V)
+    (hwf : d.WF) (hd : d.DefaultsOK splice) :
+    compiledPack splice d attrs = interpPack d attrs := by
+  obtain ⟨gp, hgp, hc⟩ := vpCompile_ok splice d hwf hd
+  simp only [compiledPack, hc, runPack, interpPack]
+  unfold compilePack at hgp
+  cases hes : compilePackFmts d.names (hasKey d.fixPack) d.fmts 0 with
+  | error e => simp [hes] at hgp
+  | ok es =>
+    simp only [hes, Except.ok.injEq] at hgp
+    subst hgp
+    exact runPackEntries_eq d attrs d.fmts 0 es hes
+
+
 /-! ### from_unpack_list -/
 
 theorem bindParams_all_positional (dflt : String → Option V) (ns : List String) (as : List V)
@@ -732,6 +845,35 @@ theorem runUArgs_eq (isNone : V → Bool) (d : PDef V) (pre : KW V) (ns : List S
       simp only [List.zip_cons_cons, List.map_cons, runUArgs, ha, hrest, List.zipWith_cons_cons]
 
 
+/-- proof of `compiled_unpack_eq` (stated in Props.lean) -/
+theorem compiled_unpack_eq_lemma (splice : V → Option V) (isNone : V → Bool) (d : PDef V) (args : List V)
+    (hwf : d.WF) (hd : d.DefaultsOK splice)
+    (hlen : args.length = d.names.length) (hnone : ∀ a ∈ args, isNone a = false) :
+    (compiledUnpack splice isNone d args).toOption = (interpUnpack d args).toOption := by
+  obtain ⟨gp, _, hc⟩ := vpCompile_ok splice d hwf hd
+  have hbind : bindParams (fun _ => (none : Option V)) [] d.names args = .ok args :=
+    bindParams_all_positional _ d.names args hlen
+  have hargs := runUArgs_eq isNone d [] d.names args hlen.symm (fun _ _ => by simp [keys]) hwf.nodup hnone
+  simp only [List.nil_append] at hargs
+  simp only [compiledUnpack, hc, runUnpack, compileUnpack, pyBind, hbind, List.filter_nil, List.isEmpty_nil,
+    Bool.not_true, Bool.and_false, Bool.false_eq_true, if_false, hargs]
+  rw [runInit_generated d _ [] hwf.nodup]
+  have hcore := init_core d (List.zipWith (unpackHook d) d.names args) [] hwf (by simp [keys])
+  rw [hcore]
+  simp only [interpUnpack, unpackFix_eq d args 0 (by omega), List.drop_zero]
+
+
+/-- with the right number of raw values the interpreted `from_unpack_list` always succeeds, with these attributes -/
+theorem interpUnpack_formula (d : PDef V) (raw : List V) (hwf : d.WF) (hlen : raw.length = d.names.length) :
+    (interpUnpack d raw).toOption = some (d.names.zip (List.zipWith (unpackHook d) d.names raw)).reverse := by
+  have hz : (List.zipWith (unpackHook d) d.names raw).length = d.names.length := by
+    simp [List.length_zipWith, hlen]
+  simp only [interpUnpack, unpackFix_eq d raw 0 (by omega), List.drop_zero]
+  rw [← init_core d _ [] hwf (by simp [keys])]
+  rw [bindParams_congr (alookup d.sigDefaults) (alookup d.sigDefaults) [] [] d.names _ (fun _ _ => rfl) (fun _ _ => rfl),
+    bindParams_all_positional _ d.names _ hz]
+  simp [Except.toOption]
+
 /-! ### missing arguments, shipped definitions, dataclass well-formedness -/
 
 theorem bindParams_missing (dflt : String → Option V) (ns : List String)
@@ -781,7 +923,7 @@ theorem SDef.toPDef_wf (s : SDef) (dv : String → V) (hp hu : String → V → 
     (s.toPDef dv hp hu).WF ∧ (s.toPDef dv hp hu).DefaultsOK some := by
   simp only [SDef.wf, Bool.and_eq_true, decide_eq_true_eq, beq_iff_eq] at h
   obtain ⟨⟨h1, h2⟩, h3⟩ := h
-  refine ⟨⟨h1, h2⟩, ⟨fun _ _ _ => rfl, ?_⟩⟩
+  refine ⟨PDef.WF.of_no_super _ h1 h2 rfl, ⟨fun _ _ _ => rfl, ?_⟩⟩
   simp only [SDef.toPDef]
   rw [defaultsOrdered_pat] at h3 ⊢
   rw [← h3]
